@@ -271,7 +271,7 @@ theorem IT_new_getOriginal (pi cv lo hi : ℝ) (h1 : lo < cv) (h2 : cv < hi) :
 theorem RT_new_getOriginal (v b : ℝ) (pos : Bool) (hv : if pos then b < v else v < b) :
     ∃ t, RT.new v b pos 1 = some t ∧ t.getOriginal = v ∧ t.bound = b ∧ t.positive = pos ∧ t.scale = 1 := by
   unfold RT.new
-  have := Bpp.C11aux.r_roundtrip { scale := (1 : ℝ), bound := b, positive := pos, x := paramSet zero one }
+  have := Bpp.C11aux.r_roundtrip { scale := (1 : ℝ), bound := b, positive := pos, x := one }
     rfl v (by simpa [RT.Inside] using hv)
   obtain ⟨t', h1, h2, h3, h4, h5⟩ := this
   exact ⟨t', h1, h2, h4, h5, h3⟩
